@@ -435,22 +435,24 @@ let parse_addr_obj (spec : String.t) host ty text port_text =
   { a_kind = n_of_int kind; a_host = unhex host; a_port = (if port = 0 then Z0 else Zpos (pos_of_int port));
     a_type = unhex ty; a_text = unhex text }
 
+let default_request =
+  let z = { a_kind = n_of_int 1; a_host = bytes_of_ostring "0.0.0.0"; a_port = Z0; a_type = bytes_of_ostring "ipv4"; a_text = bytes_of_ostring "0.0.0.0:0" } in
+  { rq_listener = []; rq_connector = []; rq_feature = bytes_of_ostring "TcpForward"; rq_source = z;
+    rq_target = { a_kind = N0; a_host = bytes_of_ostring "unknown"; a_port = Z0; a_type = bytes_of_ostring "unknown"; a_text = bytes_of_ostring "unknown" } }
+
+let mk_request = function
+  | [ l; c; _f; s; t; feat; sh; st; sp; stx; th; tt; tp; ttx ] ->
+      Some { rq_listener = unhex l; rq_connector = (if c = "-" then [] else unhex c); rq_feature = unhex feat;
+             rq_source = parse_addr_obj s sh st stx sp; rq_target = parse_addr_obj t th tt ttx tp }
+  | _ -> None
+
 let milu_eval args =
   match args with
   | h :: rest -> (
       let src = unhex h in
       if List.exists (fun c -> int_of_n c = 96) src || not (utf8_valid src) then "OPAQUE"
       else
-        let rq =
-          match rest with
-          | [ l; c; _f; s; t; feat; sh; st; sp; stx; th; tt; tp; ttx ] ->
-              { rq_listener = unhex l; rq_connector = (if c = "-" then [] else unhex c); rq_feature = unhex feat;
-                rq_source = parse_addr_obj s sh st stx sp; rq_target = parse_addr_obj t th tt ttx tp }
-          | _ ->
-              let z = { a_kind = n_of_int 1; a_host = bytes_of_ostring "0.0.0.0"; a_port = Z0; a_type = bytes_of_ostring "ipv4"; a_text = bytes_of_ostring "0.0.0.0:0" } in
-              { rq_listener = []; rq_connector = []; rq_feature = bytes_of_ostring "TcpForward"; rq_source = z;
-                rq_target = { a_kind = N0; a_host = bytes_of_ostring "unknown"; a_port = Z0; a_type = bytes_of_ostring "unknown"; a_text = bytes_of_ostring "unknown" } }
-        in
+        let rq = match mk_request rest with Some r -> r | None -> default_request in
         match x_milu_parse src with
         | PPanic -> raise Model_panic
         | PErr | PFail -> "SYNTAX"
@@ -473,6 +475,62 @@ let milu_eval args =
             with Opaque -> "OPAQUE"))
   | _ -> "BAD-ARGS"
 
+(* ---- dispatch ------------------------------------------------------------------------ *)
+
+let feature_code = function "t" -> 0 | "B" -> 1 | "u" -> 2 | "b" -> 3 | _ -> 0
+let state_name i = match i with
+  | 0 -> "ClientConnected" | 1 -> "ClientRequested" | 2 -> "ServerConnecting" | 3 -> "Connected"
+  | 4 -> "ServerShutdown" | 5 -> "ClientShutdown" | 6 -> "Terminated" | _ -> "ErrorOccured"
+
+let parse_rules spec =
+  if spec = "-" then []
+  else
+    List.map
+      (fun r ->
+        let i = String.index r ':' in
+        let t = String.sub r 0 i and f = String.sub r (i + 1) (String.length r - i - 1) in
+        (unhex t, if f = "-" then None else Some (unhex f)))
+      (split_on ';' spec)
+
+let parse_conns spec =
+  if spec = "-" then []
+  else
+    List.map
+      (fun c ->
+        match String.split_on_char ':' c with
+        | [ n; fs; ok ] ->
+            { c_name = unhex n; c_feats = List.map (fun ch -> n_of_int (feature_code (String.make 1 ch))) (List.init (String.length fs) (String.get fs)); c_ok = ok = "ok" }
+        | _ -> failwith "conn")
+      (split_on ',' spec)
+
+let show_trace t =
+  let ev = function
+    | EvConnect c -> "connect:" ^ hex c | EvOnConnect -> "on_connect" | EvOnError -> "on_error" | EvOnFinish -> "on_finish" in
+  Printf.sprintf "ev=%s client=- fwd=%s anyfwd=%d conn=%s states=%s err=%d"
+    (if t.t_events = [] then "-" else String.concat "," (List.map ev t.t_events))
+    (hex t.t_forwarded) (List.length t.t_forwarded)
+    (match t.t_connector with None -> "-" | Some c -> hex c)
+    (String.concat ">" (List.map (fun s -> state_name (int_of_n s)) t.t_states))
+    (if t.t_error then 1 else 0)
+
+let dispatch args =
+  match args with
+  | rules :: conns :: lbs :: l :: s :: t :: f :: payload :: texts -> (
+      if lbs <> "-" then "OPAQUE"
+      else
+        let rq = match mk_request (l :: "-" :: f :: s :: t :: texts) with Some r -> r | None -> default_request in
+        let srcs = parse_rules rules in
+        if List.exists (fun (_, fo) -> match fo with Some b -> List.exists (fun c -> int_of_n c = 96) b || not (utf8_valid b) | None -> false) srcs then "OPAQUE"
+        else
+          try
+            match x_dispatch regex_oracle cidr_oracle default_request rq srcs (parse_conns conns) (n_of_int (feature_code f)) (List.concat (chunks_of payload)) with
+            | Ok None -> "RULES-ERR"
+            | Ok (Some tr) -> show_trace tr
+            | Err _ -> "MODEL-ERR"
+            | Panic _ -> raise Model_panic
+          with Opaque -> "OPAQUE")
+  | _ -> "BAD-ARGS"
+
 (* ---- main ----------------------------------------------------------------------------- *)
 
 let run_line ovf line =
@@ -484,6 +542,7 @@ let run_line ovf line =
         | "frag_seq" -> frag_seq ovf args
         | "frag_make" -> frag_make ovf args
         | "frag_rt" -> frag_rt ovf args
+        | "dispatch" -> dispatch args
         | "milu_parse" -> milu_parse args
         | "milu_eval" -> milu_eval args
         | "socks_req_read" -> socks_req_read args
